@@ -97,6 +97,20 @@ def gen_x(rng, fam, par, k=4):
             xs = [min(max(v, 1e-6), 1 - 1e-6) for v in xs]
         if fam in ("exp", "gamma", "chisq"):
             xs = [max(v, 1e-9) for v in xs]
+        if rng.random() < 0.15:
+            # arguments far out in the support, where the plain density / distribution function underflows to 0 but
+            # its logarithm is an ordinary finite number
+            j = rng.randrange(len(xs))
+            if fam == "norm":
+                xs[j] = round(par["mean"] + rng.choice([-1, 1]) * rng.choice([12.0, 40.0]) * par["sd"], 6)
+            elif fam == "exp":
+                xs[j] = round(rng.choice([400.0, 800.0]) / par["rate"], 6)
+            elif fam == "gamma":
+                xs[j] = round((par["shape"] + rng.choice([800.0, 1500.0])) / par["rate"], 6)
+            elif fam == "chisq":
+                xs[j] = float(rng.choice([1600, 3000]))
+            elif fam == "beta":
+                xs[j] = rng.choice([1e-200, 1e-150]) if par["shape1"] > 1.5 else xs[j]
     return xs, us
 
 
